@@ -187,7 +187,9 @@ class Path:
         for f in fs:
             s.add(f)
         if self.ex.feas_axioms:
-            ax, _ = theory.instantiate(fs, rounds=1, heavy=False, quant=self.ex.quant)
+            # quantified mode: feasibility checks get no pairwise schemas at all (a quantifier makes `sat` come back
+            # as `unknown` after the full timeout; unknown counts as feasible anyway)
+            ax, _ = theory.instantiate(fs, rounds=1, heavy=False, quant=('skip' if (self.ex.quant or self.ex.feas_light) else False))
             for a in ax:
                 s.add(a)
         r = s.check()
